@@ -63,7 +63,7 @@ def main():
         checks = [prop] + [p for p in meta.get('also_check', [])]
         res['ran']['checks'] = {}
         for pid in checks:
-            env2 = dict(os.environ, VERIF_REPO=copy)
+            env2 = dict(os.environ, VERIF_REPO=copy, VERIF_EVIDENCE='/tmp/seeded-evidence-%s' % mid)
             rc, out, t = sh('./check %s %s' % (pid, tier), cwd=VERIF, env=env2, timeout=7200)
             viol = [l for l in out.split('\n') if l.startswith('VIOLATION')]
             mech = [l.strip()[:300] for l in out.split('\n') if l.strip().startswith('mech=')]
@@ -77,6 +77,7 @@ def main():
 
 
 def finish(dst, res, copy):
+    shutil.rmtree('/tmp/seeded-evidence-%s' % os.path.basename(dst), ignore_errors=True)
     if '--keep' not in sys.argv:
         sh('git -C /repo worktree remove --force %s' % copy)
         shutil.rmtree(copy, ignore_errors=True)
